@@ -372,3 +372,37 @@ pub fn s_mask_bases() -> Vec<(usize, usize, Family, Vec<u8>)> {
     }
     out
 }
+
+/// S_cap_families: extreme payloads (all-minimum, all-maximum, pad look-alike, counter) at capacity and at length 1
+pub fn s_cap_families(thorough: bool) -> Space {
+    let mut cases = vec![];
+    for v in 1..=40usize {
+        for e in 0..4usize {
+            for f in [Family::Ctr, Family::Lo, Family::Hi, Family::Pad] {
+                for m in 0..3usize {
+                    if !thorough && m != 2 && !(v <= 10 || v % 5 == 0) {
+                        continue;
+                    }
+                    let cap = r::cap(v, e, m);
+                    for len in [cap, cap / 2, 1] {
+                        cases.push(Case {
+                            input: Input::Fam(f, m as u8, len as u32),
+                            opts: Opts { mode: Some(m as u8), ecl: Some(e as u8), version: Some(v as u8), mask: None },
+                        });
+                    }
+                }
+            }
+        }
+    }
+    Space {
+        name: "S_cap_families".into(),
+        describe: if thorough {
+            "all 160 (version, level) x {ctr, all-minimum, all-maximum, pad look-alike} x 3 modes at capacity, half capacity and length 1 (extreme dark ratios, long runs, zero runs followed by pad codewords)".into()
+        } else {
+            "all 160 (version, level) x {ctr, all-minimum, all-maximum, pad look-alike} in byte mode (all 3 modes for v<=10 and v divisible by 5) at capacity, half capacity and length 1".into()
+        },
+        cases,
+        exhaustive: true,
+    }
+}
+
